@@ -74,7 +74,7 @@ PROPS = {
                  "re-used for another Marshal; every earlier result is re-checked after later decodes. Marshal: value unchanged, destination "
                  "bytes below len unchanged, output shares no address range with any string/slice of the value and does not change when the "
                  "value's byte slices are overwritten. Non-trivial = result holds >=1 non-empty string or slice; distinct by case hash."),
-        "jobs": [{"run": "^TestC11", "shards": 32, "quick_shards": 4, "timeout_quick": 600, "timeout_thorough": 3000}],
+        "jobs": [{"run": "^TestC11", "shards": 48, "quick_shards": 4, "timeout_quick": 600, "timeout_thorough": 3000}],
     },
     "C03": {
         "level_text": "Exploration over generated schema edit scripts (remove / add / rename / reorder at every depth) with the expected result computed on the harness's value model; skipped wire forms are counted per kind. Holds on the pairs generated; hand-written pairs cover recursive types.",
@@ -97,7 +97,7 @@ PROPS = {
                  "Invariant after every step: every target equals its model (nil and empty slices interchangeable); every decodeFresh equals "
                  "the normalised value and the decode of a brand-new instance. Non-trivial = a decodeInto whose prior and data are both non-zero, "
                  "or a decodeFresh after >=2 earlier decodes of that type; distinct by hash of the whole operation sequence."),
-        "jobs": [{"run": "^TestC10", "shards": 32, "quick_shards": 4, "timeout_quick": 600, "timeout_thorough": 3000}],
+        "jobs": [{"run": "^TestC10", "shards": 48, "quick_shards": 4, "timeout_quick": 600, "timeout_thorough": 3000}],
     },
     "C12": {
         "level_text": 'Exploration across all four option combinations with an independent standard-protobuf reader, the reference encoder and a locality (metamorphic) check per switch.',
